@@ -569,7 +569,7 @@ pub struct Hist {
 }
 
 pub struct C16;
-pub const FOREIGN_KINDS: u8 = 12;
+pub const FOREIGN_KINDS: u8 = 15;
 const FMT: [&str; 3] = ["json", "cbor", "postcard"];
 
 fn expected_doc<K: Kind>(h: &K::H, fmt: u8) -> Vec<u8> {
@@ -608,6 +608,63 @@ fn de_reader<T: DeserializeOwned, R: Read>(fmt: u8, rd: R) -> Result<T, String> 
     }
 }
 
+/// Alternative legal encodings of one hash (text form for JSON, binary form for CBOR / postcard).
+fn alt_encoding(fmt: u8, kind: u8, text: &str, bin: &[u8]) -> Option<Vec<u8>> {
+    let mut o = Vec::new();
+    match (fmt, kind) {
+        (0, 13) => {
+            // every character as a \uXXXX escape
+            o.push(b'"');
+            for c in text.chars() {
+                o.extend_from_slice(format!("\\u{:04x}", c as u32).as_bytes());
+            }
+            o.push(b'"');
+        }
+        (0, 14) => {
+            o.extend_from_slice(b" \n\t\"");
+            o.extend_from_slice(text.as_bytes());
+            o.extend_from_slice(b"\" \r\n");
+        }
+        (0, _) => {
+            // only the first character escaped (upper-case hex digits in the escape)
+            o.push(b'"');
+            let mut cs = text.chars();
+            if let Some(c) = cs.next() {
+                o.extend_from_slice(format!("\\u{:04X}", c as u32).as_bytes());
+            }
+            o.extend_from_slice(cs.as_str().as_bytes());
+            o.push(b'"');
+        }
+        (1, 13) => {
+            // byte string with a two-byte length although one would do
+            o.extend_from_slice(&[0x59, (bin.len() >> 8) as u8, bin.len() as u8]);
+            o.extend_from_slice(bin);
+        }
+        (1, 14) => {
+            // indefinite-length byte string in two chunks
+            let (a, b) = bin.split_at(bin.len() / 2);
+            o.push(0x5f);
+            for c in [a, b] {
+                o.extend_from_slice(&[0x58, c.len() as u8]);
+                o.extend_from_slice(c);
+            }
+            o.push(0xff);
+        }
+        (1, _) => {
+            // tag 64 (uint8 typed array) around the byte string
+            o.extend_from_slice(&[0xd8, 0x40, 0x58, bin.len() as u8]);
+            o.extend_from_slice(bin);
+        }
+        (_, 13) => {
+            // length varint with a redundant continuation byte
+            o.extend_from_slice(&[bin.len() as u8 | 0x80, 0x00]);
+            o.extend_from_slice(bin);
+        }
+        _ => return None,
+    }
+    Some(o)
+}
+
 fn run_store<K: Kind>(h: &Hist, st: &mut Stats, fnv: &mut Fnv, states: &mut Vec<u64>) -> Option<Violation>
 where
     K::H: Serialize + DeserializeOwned,
@@ -639,7 +696,12 @@ where
         9 => put(h.fmt, &mut w, &std::collections::BTreeMap::from([("a".to_string(), hash_s.clone())])),
         10 => put(h.fmt, &mut w, &hash_s[2..].to_string()),               // prefix-less text
         11 => put(h.fmt, &mut w, &hash_s.to_ascii_lowercase()),
-        _ => put(h.fmt, &mut w, &vec![hash, hash]),
+        12 => put(h.fmt, &mut w, &vec![hash, hash]),
+        // 13..15: the *same value* as another, equally legal writer of the format would have encoded it
+        k => match alt_encoding(h.fmt, k, &hash_s, &bin_form[..nbin]) {
+            Some(raw) => w.write_all(&raw).map_err(|e| e.to_string()),
+            None => put(h.fmt, &mut w, &hash),
+        },
     };
     if h.foreign != 0 {
         st.hit("fault.foreign_document");
@@ -911,7 +973,7 @@ impl Scenario for C16 {
         json!({"variant": VARIANT_NAMES[h.variant as usize], "variant_id": h.variant, "format": FMT[h.fmt as usize], "fmt": h.fmt,
                "hash": src_json(&h.src), "writer": plan_json(&h.w), "medium": h.medium.iter().map(mf_json).collect::<Vec<_>>(),
                "via_reader": h.via_reader, "reader": plan_json(&h.r), "sub": h.sub, "foreign": h.foreign,
-               "foreign_legend": "0 hash itself, 1 seq(binary), 2 seq(text), 3 text string, 4 u64, 5 bool, 6 unit, 7 Some(hash), 8 (hash,), 9 map, 10 prefix-less text, 11 lower-case text, 12 [hash, hash]"})
+               "foreign_legend": "0 hash itself, 1 seq(binary), 2 seq(text), 3 text string, 4 u64, 5 bool, 6 unit, 7 Some(hash), 8 (hash,), 9 map, 10 prefix-less text, 11 lower-case text, 12 [hash, hash], 13-15 the same value in another legal encoding (JSON escapes / whitespace; CBOR long length, indefinite-length chunks, tag 64; postcard redundant varint byte)"})
     }
     fn from_json(&self, v: &Value) -> Result<Hist, String> {
         Ok(Hist {
